@@ -35,12 +35,13 @@ CONSTANTS Gpus,      \* all GPU indices (domain of the per-GPU functions)
           Payloads,  \* MC: request payloads the environment may issue
           RspData,   \* MC: data the owner may answer a read with
           MaxReq,    \* MC: number of requests issued
-          MaxDrain   \* MC: number of drain rounds
+          MaxDrain,  \* MC: number of drain rounds
+          Deviations \* named departures from the design, {} = the design (see DrainPrepare)
 
 VARIABLES cfg,    \* [comps, ranges, il, nb]   constant during a run
           port,   \* [Gpus -> ten message queues]
           tab,    \* [Gpus -> [ins, outs]]  transactionsFromInside / transactionsFromOutside
-          ctl,    \* [Gpus -> [draining, paused, src]]
+          ctl,    \* [Gpus -> [draining, paused, src, prepared]]
           env,    \* [nreq, nrsp, l2, phase, nDrain]  network bags, requests the L2s owe, drain protocol state
           used,   \* message ids seen so far
           h       \* history (observation only)
@@ -64,12 +65,13 @@ Ctl(c, src, dst) == [c |-> c, src |-> src, dst |-> dst]
 NoPorts == [rqiIn |-> <<>>, rqiOut |-> <<>>, rqoOut |-> <<>>, rqoIn |-> <<>>,
             dtoIn |-> <<>>, dtoOut |-> <<>>, dtiOut |-> <<>>, dtiIn |-> <<>>,
             ctlIn |-> <<>>, ctlOut |-> <<>>]
+NoCtl == [draining |-> FALSE, paused |-> FALSE, src |-> NoPort, prepared |-> FALSE]
 NoHist == [orig |-> <<>>, root |-> <<>>, msrc |-> <<>>, ans |-> <<>>,
            fwd |-> {}, l2 |-> {}, rsp |-> {}, orsp |-> {}, acks |-> {}]
 InitRest ==
   /\ port = [c \in Gpus |-> NoPorts]
   /\ tab = [c \in Gpus |-> [ins |-> <<>>, outs |-> <<>>]]
-  /\ ctl = [c \in Gpus |-> [draining |-> FALSE, paused |-> FALSE, src |-> NoPort]]
+  /\ ctl = [c \in Gpus |-> NoCtl]
   /\ env = [nreq |-> {}, nrsp |-> {}, l2 |-> {}, phase |-> [c \in Gpus |-> "run"], nDrain |-> 0]
   /\ used = {}
   /\ h = NoHist
@@ -176,7 +178,7 @@ TakeDrain(c) ==
   /\ c \in cfg.comps
   /\ port[c].ctlIn # <<>> /\ Head(port[c].ctlIn).c = "drain"
   /\ port' = [port EXCEPT ![c].ctlIn = Tail(@)]
-  /\ ctl' = [ctl EXCEPT ![c] = [draining |-> TRUE, paused |-> TRUE, src |-> Head(port[c].ctlIn).src]]
+  /\ ctl' = [ctl EXCEPT ![c] = [draining |-> TRUE, paused |-> TRUE, src |-> Head(port[c].ctlIn).src, prepared |-> FALSE]]
   /\ UNCHANGED <<cfg, tab, env, used, h>>
 
 \* drainRDMA: acknowledge the drain request with `out`; the table sizes at that moment are recorded.
@@ -186,14 +188,29 @@ DrainAckCore(c, out) ==
   /\ Len(port[c].ctlOut) < PortCap
   /\ out.c = "drainrsp"
   /\ port' = [port EXCEPT ![c].ctlOut = Append(@, out)]
-  /\ ctl' = [ctl EXCEPT ![c].draining = FALSE]
+  /\ ctl' = [ctl EXCEPT ![c].draining = FALSE, ![c].prepared = FALSE]
   /\ h' = [h EXCEPT !.acks = @ \cup {[c |-> c, n |-> Cardinality(h.acks) + 1, nin |-> Len(tab[c].ins),
                                       nout |-> Len(tab[c].outs), src |-> out.src, dst |-> out.dst,
                                       want |-> ctl[c].src]}]
   /\ UNCHANGED <<cfg, tab, env, used>>
 
+\* The acknowledgement leaves only if, at the moment CtrlPort.Send accepts it, both tables are empty: the
+\* send may have to wait for room in the control port (Len(ctlOut) < PortCap in DrainAckCore) and requests of other
+\* GPUs keep arriving meanwhile, so emptiness is a guard of the sending step itself.
+\* Named deviation "StaleDrainAck": when the engine finds itself drained but the control port has no room, it
+\* keeps the prepared acknowledgement (DrainPrepare) and sends it as soon as there is room, without looking at the
+\* tables again.
+DrainPrepare(c) ==
+  /\ "StaleDrainAck" \in Deviations
+  /\ c \in cfg.comps /\ ctl[c].draining /\ ~ctl[c].prepared
+  /\ tab[c].ins = <<>> /\ tab[c].outs = <<>>
+  /\ Len(port[c].ctlOut) >= PortCap                                        \* CtrlPort.Send failed
+  /\ ctl' = [ctl EXCEPT ![c].prepared = TRUE]
+  /\ UNCHANGED <<cfg, port, tab, env, used, h>>
+
 DrainAck(c) ==
-  /\ tab[c].ins = <<>> /\ tab[c].outs = <<>>                                \* fullyDrained
+  /\ \/ tab[c].ins = <<>> /\ tab[c].outs = <<>>                             \* fullyDrained
+     \/ "StaleDrainAck" \in Deviations /\ ctl[c].prepared
   /\ DrainAckCore(c, Ctl("drainrsp", P(c, "ctl", 0), ctl[c].src))
 
 \* processRDMARestartReq: acknowledge, take requests from L1 again.
@@ -294,12 +311,16 @@ L1Take(c) ==
   /\ port' = [port EXCEPT ![c].rqiOut = Tail(@)]
   /\ UNCHANGED <<cfg, tab, ctl, env, used, h>>
 
-\* the command processor follows the protocol: drain, wait for the ack, restart, wait for the ack
+\* the control side follows the protocol: drain, take the ack, restart; the next drain may be sent as soon as the
+\* restart was sent, i.e. possibly before the RestartRsp was taken out of the control port ("restarting_d"):
+\* that RestartRsp then occupies the control port when the engine wants to acknowledge the new drain
 EnvCtrl(c, m) ==
   /\ c \in cfg.comps
   /\ m.dst = P(c, "ctl", 0)
   /\ \/ m.c = "drain" /\ env.phase[c] = "run"
         /\ env' = [env EXCEPT !.phase[c] = "draining", !.nDrain = @ + 1]
+     \/ m.c = "drain" /\ env.phase[c] = "restarting"
+        /\ env' = [env EXCEPT !.phase[c] = "restarting_d", !.nDrain = @ + 1]
      \/ m.c = "restart" /\ env.phase[c] = "drained"
         /\ env' = [env EXCEPT !.phase[c] = "restarting"]
   /\ Len(port[c].ctlIn) < PortCap
@@ -311,6 +332,7 @@ EnvTakeCtrl(c) ==
   /\ LET m == Head(port[c].ctlOut) IN
      \/ m.c = "drainrsp" /\ env.phase[c] = "draining" /\ env' = [env EXCEPT !.phase[c] = "drained"]
      \/ m.c = "restartrsp" /\ env.phase[c] = "restarting" /\ env' = [env EXCEPT !.phase[c] = "run"]
+     \/ m.c = "restartrsp" /\ env.phase[c] = "restarting_d" /\ env' = [env EXCEPT !.phase[c] = "draining"]
   /\ port' = [port EXCEPT ![c].ctlOut = Tail(@)]
   /\ UNCHANGED <<cfg, tab, ctl, used, h>>
 
@@ -324,7 +346,7 @@ CompStep(c) ==
   \/ (port[c].dtoIn # <<>> /\ FwdIn(c, 10 * RootOf(Head(port[c].dtoIn).id) + 2))
   \/ (port[c].dtiIn # <<>> /\ RspOut(c, 10 * RootOf(Head(port[c].dtiIn).to) + 4))
   \/ (port[c].rqoIn # <<>> /\ RspIn(c, 10 * RootOf(Head(port[c].rqoIn).to) + 5))
-  \/ TakeDrain(c) \/ DrainAck(c) \/ Restart(c)
+  \/ TakeDrain(c) \/ DrainPrepare(c) \/ DrainAck(c) \/ Restart(c)
 
 \* the same steps, one named action each (TLC reports coverage per name)
 NFwdOut == \E c \in cfg.comps : port[c].rqiIn # <<>> /\ FwdOut(c, 10 * Head(port[c].rqiIn).id + 1)
@@ -332,9 +354,10 @@ NFwdIn == \E c \in cfg.comps : port[c].dtoIn # <<>> /\ FwdIn(c, 10 * RootOf(Head
 NRspOut == \E c \in cfg.comps : port[c].dtiIn # <<>> /\ RspOut(c, 10 * RootOf(Head(port[c].dtiIn).to) + 4)
 NRspIn == \E c \in cfg.comps : port[c].rqoIn # <<>> /\ RspIn(c, 10 * RootOf(Head(port[c].rqoIn).to) + 5)
 NTakeDrain == \E c \in cfg.comps : TakeDrain(c)
+NDrainPrepare == \E c \in cfg.comps : DrainPrepare(c)      \* never enabled in the design (Deviations = {})
 NDrainAck == \E c \in cfg.comps : DrainAck(c)
 NRestart == \E c \in cfg.comps : Restart(c)
-CompNext == NFwdOut \/ NFwdIn \/ NRspOut \/ NRspIn \/ NTakeDrain \/ NDrainAck \/ NRestart
+CompNext == NFwdOut \/ NFwdIn \/ NRspOut \/ NRspIn \/ NTakeDrain \/ NDrainPrepare \/ NDrainAck \/ NRestart
 
 NL1Req ==
   /\ NextRoot <= MaxReq
@@ -451,7 +474,7 @@ Quiescent ==
 AllAnswered == Quiescent => \A r \in Roots : Answered(r)
 
 Progress == \A r \in 1..MaxReq : [](r \in Roots => <>(r \in Roots /\ Answered(r)))
-DrainProgress == \A c \in Comps : [](env.phase[c] = "draining" => <>(env.phase[c] = "drained"))
+DrainProgress == \A c \in Comps : [](env.phase[c] \in {"draining", "restarting_d"} => <>(env.phase[c] = "drained"))
 
 TypeOK ==
   /\ \A c \in Gpus : /\ Len(port[c].rqiIn) <= PortCap /\ Len(port[c].rqoOut) <= PortCap
